@@ -90,9 +90,12 @@ PROPS = {
             "65535, `${name}` known/unknown/empty/unterminated, multi-byte text); thorough: additionally every template "
             "of length <= 3 over {$,1,{,},n} - with symbolic group participation. Splice: replace_with and replace "
             "(first match) equal the splice specification for every possible first match on a 3-byte haystack with a "
-            "2-byte character (matcher = arbitrary deterministic oracle). NOT covered: symbolic templates (do not close) "
-            "and the multi-match loop of replace_all / replace_all_with (does not close, even on one concrete match "
-            "table); its match sequence is the Matches iterator contracted under C09."),
+            "2-byte character (matcher = arbitrary deterministic oracle); replace_all_with and replace_all equal the "
+            "splice specification for EVERY match sequence of up to 3 matches (symbolic ranges, empty and adjacent "
+            "matches) on a 4-byte haystack with a 2-byte character - closure = marker / the match's own text (identity) "
+            "/ literal template, thorough: template [$0] - with the search driver replaced by its contract (Verus unit "
+            "cv_drivers) and Matches::next, the dispatch, the splice loop and expand_replacement real. NOT covered: "
+            "symbolic templates (do not close), longer haystacks, more than 3 matches."),
     "C18": ("other", "escape(s) == esc_spec(s) for EVERY string s (Verus, unbounded, on the function text extracted from "
             "src/api.rs): each of the 14 syntax characters gets one backslash, every other character is copied in order; "
             "and the parser's CharacterEscape maps `\\c` back to the literal c for each of those characters in every mode, "
@@ -129,7 +132,9 @@ ASSUMPTIONS = {
     "C09": ["try_at_pos contract assumed by the oracle: start <= end <= len, end on a boundary, deterministic, State "
             "clean on None (E2/E3/E9 establish these per instruction)"],
     "C17": ["Match values are built directly (accessors are contracted under C16 by j1_*)",
-            "the matcher is an oracle meeting try_at_pos's contract; successful_match is replaced by its contract stub"],
+            "the matcher is an oracle meeting try_at_pos's contract; successful_match is replaced by its contract stub",
+            "j3_replace_all_*: next_match_with_prefix_search is replaced by scripted_search, its contract as verified "
+            "(unbounded) by the Verus unit cv_drivers"],
     "C10": ["content of FOLDS vs Unicode 17 CaseFolding.txt is unchecked"],
 }
 
